@@ -9,6 +9,8 @@ def step (line : String) : String :=
     | "implicit" :: rest => Implicit.run rest
     | "imex" :: rest => Imex.run rest
     | "filters" :: rest => Filters.run rest
+    | "forcing" :: rest => Forcing.run rest
+    | "units" :: rest => Units.run rest
     | _ => none
   r.getD "bad-op"
 
